@@ -42,6 +42,15 @@ CLAIMED = {
             'hand model of per_visible.rs (string/alphabet arms modelled and corresponded, not covered by theorems); X.680 precedence '
             'oracle for <= 3 operands; value references in bounds are C09',
             'Coq proof (induction over set operations) + differential correspondence'),
+    'C05': ('proof',
+            'Theorems over component lists of any length: members = root components then one member per addition/group in source '
+            'order; exactly the positions after the marker carry an extension annotation (none without a marker); a plain addition is '
+            'extension_addition, each [[ ]] group one optional extension_addition_group member holding exactly the grouped components; '
+            'CHOICE alternatives flattened in order with the same index rule; non_exhaustive iff marker or EXTENSIBILITY IMPLIED. Hand '
+            'model of the From impls and member formatting tied end-to-end (syn projection) on random shapes; independent Spec oracle in Coq',
+            '§6 C05',
+            'component lists without COMPONENTS OF (C09); ENUMERATED index is C14; identifiers satisfy X.680 12.3 (no underscore)',
+            'Coq proof (list induction) + differential correspondence'),
 }
 NOT_YET = 'check not built yet in this session (planned, see DESIGN.md §6); not claimed until its proof and correspondence run'
 
